@@ -106,6 +106,7 @@ type File struct {
 	AtN     bool              // uploaded through N's API
 	AtP     bool              // uploaded at the peer
 	Raw     bool              // POST /bytes upload (no manifest, not registered with chunkinfo)
+	Writes  []boson.Address   // Put sequence of the last upload (with repetitions)
 }
 
 // HasAddr tells whether a is one of the file's chunks.
@@ -298,6 +299,15 @@ func (rn *Runner) Snapshot() *Snap {
 	return s
 }
 
+// sid: symbolic id for dumps; 64-byte (encrypted) references are hidden everywhere but in the pin list
+func (rn *Runner) sid(hexAddr string) (int, bool) {
+	if len(hexAddr) != 64 {
+		return 0, false
+	}
+	id, ok := rn.ids[hexAddr]
+	return id, ok
+}
+
 // symbolic rendering of state-store keys: prefix:root[:overlay]
 func (rn *Runner) symKey(k string) (string, bool) {
 	for _, pf := range []struct{ p, s string }{{"chunk-", "c"}, {"discover-", "d"}, {"sourceChunk-", "sc"}, {"sourcePyramid-", "sp"}} {
@@ -306,7 +316,7 @@ func (rn *Runner) symKey(k string) (string, bool) {
 			if len(rest) != 2 {
 				return "", false
 			}
-			id, ok := rn.ids[rest[0]]
+			id, ok := rn.sid(rest[0])
 			if !ok {
 				return "", false
 			}
@@ -348,7 +358,7 @@ func (rn *Runner) Show(s *Snap) string {
 	}
 	var pins []kv
 	for k, v := range s.Pin {
-		if id, ok := rn.ids[k]; ok {
+		if id, ok := rn.sid(k); ok {
 			pins = append(pins, kv{id, v})
 		}
 	}
@@ -362,7 +372,7 @@ func (rn *Runner) Show(s *Snap) string {
 	sb.WriteString("] G[")
 	first := true
 	for _, g := range s.GC {
-		id, ok := rn.ids[g.Root.String()]
+		id, ok := rn.sid(g.Root.String())
 		if !ok {
 			continue
 		}
@@ -375,7 +385,7 @@ func (rn *Runner) Show(s *Snap) string {
 	sb.WriteString("] A[")
 	var acc []int
 	for _, a := range s.Access {
-		if id, ok := rn.ids[a.String()]; ok {
+		if id, ok := rn.sid(a.String()); ok {
 			acc = append(acc, id)
 		}
 	}
@@ -389,7 +399,7 @@ func (rn *Runner) Show(s *Snap) string {
 	fmt.Fprintf(&sb, "] Z=%d C[", s.GCSize)
 	var refs []kv
 	for _, c := range s.CI.Chunk {
-		if id, ok := rn.ids[c.Cid]; ok {
+		if id, ok := rn.sid(c.Cid); ok {
 			refs = append(refs, kv{id, uint64(c.Count)})
 		}
 	}
@@ -418,7 +428,7 @@ func (rn *Runner) Show(s *Snap) string {
 		return strings.Join(x, ";")
 	}
 	for _, r := range s.CI.Roots {
-		id, ok := rn.ids[r.Root]
+		id, ok := rn.sid(r.Root)
 		if !ok {
 			continue
 		}
@@ -639,7 +649,7 @@ func (rn *Runner) annotateStruct(ctx *core.Ctx, f *File) {
 	if len(subs) == 0 {
 		subs = []string{"-"}
 	}
-	ctx.Annotate("r="+strconv.Itoa(r), "d="+strings.Join(subs, ","), "h="+rn.idList(f.Hash))
+	ctx.Annotate("r="+strconv.Itoa(r), "d="+strings.Join(subs, ","), "h="+rn.idList(f.Hash), "w="+rn.idList(f.Writes))
 }
 
 // Complete: every pyramid key of f is stored at N (traversals of f from the local store succeed).
@@ -743,6 +753,7 @@ func (rn *Runner) exec(ctx *core.Ctx, ev *Event, op []string) string {
 			written = append(append([]boson.Address(nil), f.All...), written...)
 		}
 		f.Root = ref
+		f.Writes = written
 		rn.learn(ctx, node, f, written)
 		ev.File = f
 		if node == n {
@@ -785,7 +796,7 @@ func (rn *Runner) exec(ctx *core.Ctx, ev *Event, op []string) string {
 		for _, a := range written {
 			rn.Uploaded[a.String()] = true
 		}
-		ctx.Annotate("r="+strconv.Itoa(rn.id(f.Root)), "d="+rn.idList(f.Data), "h="+rn.idList(f.Hash))
+		ctx.Annotate("r="+strconv.Itoa(rn.id(f.Root)), "d="+rn.idList(f.Data), "h="+rn.idList(f.Hash), "w="+rn.idList(written))
 		return strconv.Itoa(code)
 
 	case "pins":
@@ -869,6 +880,9 @@ func (rn *Runner) exec(ctx *core.Ctx, ev *Event, op []string) string {
 			code = n.HasPinRef(f.Root)
 		}
 		ev.Code = code
+		if f.Enc && op[0] != "haspin" {
+			ctx.Annotate("c=" + strconv.Itoa(code)) // outcome of a traversal over 64-byte references: opaque to the model
+		}
 		return strconv.Itoa(code)
 
 	case "del":
@@ -968,7 +982,9 @@ func (rn *Runner) exec(ctx *core.Ctx, ev *Event, op []string) string {
 		if len(f.Subs) == 1 {
 			path = ""
 		}
-		if _, err := n.FetchChunks(f.Root, path, ranges); err != nil {
+		_, touched, err := n.FetchChunks(f.Root, path, ranges)
+		ctx.Annotate("t=" + rn.idList(touched))
+		if err != nil {
 			rn.err = err
 			if os.Getenv("VH_DEBUG") != "" {
 				fmt.Fprintln(os.Stderr, "fetch error:", err)
@@ -1011,24 +1027,6 @@ func (rn *Runner) exec(ctx *core.Ctx, ev *Event, op []string) string {
 		}
 		return "ok"
 
-	case "download":
-		if len(op) != 2 || f.Enc {
-			return skip(ev, "bad-op")
-		}
-		if !f.AtP {
-			return skip(ev, "nofile")
-		}
-		if rn.known(f, ev.Before) {
-			return skip(ev, "unstable")
-		}
-		code, body := n.Download(f.Root, rn.P.Addr.String())
-		ev.Code = code
-		if code == 200 && len(f.Subs) == 1 && !bytes.Equal(body, contentOf(f.Subs[0].Letters)) {
-			ctx.Fail("harness-download", "download of %s returned other bytes", f.Spec)
-		}
-		rn.markCached(f.Hash)
-		rn.markCached(f.Data)
-		return strconv.Itoa(code)
 	}
 	return skip(ev, "bad-op")
 }
